@@ -45,6 +45,14 @@ CHECKS = {
    technique="TLA+ specification of the introspection view of an abstract schema with Rebuild(View(S)) = S checked by TLC (Introspect.tla) + gate machine; every enumerated / seeded schema rendered to SDL and served through the runtime introspection package and through generated servers, answers rebuilt and compared",
    text="Introspect.tla defines abstract schemas (all kinds, interface-implements-interface, unions, directives incl. repeatable, defaults, descriptions, a deprecation flag on every element separately), View(S, includeDeprecated) per GraphQL section 4 and Rebuild; TLC checks Rebuild(View(S)) = S and well-formedness on all schemas of the bound and the disabled-introspection gate on a bounded space of hiding operations (aliases, fragments, variables, _service). Each schema (exhaustive slices + seeded ones whose views TLC evaluates through Feed_Introspect) is rendered to SDL, served by the runtime package and by servers generated from /repo's templates (both layouts, Config.Schema override), queried with the standard introspection query (includeDeprecated true / omitted / variable) and __type(name:), and the rebuilt abstract schema is compared element-wise; with introspection disabled the hiding operations must yield null + error and leak no schema name.",
    note="Trusted: TLC, gqlparser as SDL loader, the JSON->abstract-schema rebuild. Two harmless representation differences ([] vs null for inapplicable lists, default deprecation reason) are tolerated and counted."),
+ "C02": dict(level=EX, ref="DESIGN.md §5 C02, notes/C02.md",
+   technique="TLA+ specification of GraphQL input coercion over type shapes x value sources x abstract JSON values (Coerce.tla) with theorems checked by TLC; the probe schema is rendered from the TLC-printed shape list, generated and compiled from /repo in 5 option configurations, and every enumerated case is executed and the Go values the resolver received are compared",
+   text="Coerce.tla composes CoerceVariableValues, CoerceArgumentValues and input coercion for 34 type shapes (scalars incl. ID/IntID/UintID/Int64/Uint64/custom, enums, the four list nullabilities, nested lists, input objects with defaults / nested / list fields, Omittable-bound and map-backed inputs) x sources (literal, variable, variable default, argument default, field default) x abstract values incl. 19 integer boundary classes x carriers; TLC checks idempotence, list wrapping exactly for non-list non-null values, default iff absent, numeric classes preserved or rejected. The args probe SDL is rendered from the printed shape list, servers are generated from /repo's templates under all pairs of {nullable_input_omittable, return_pointers_in_unmarshalinput, call_argument_directives_with_null, struct_fields_always_pointers}; for every case the check compares whether the resolver ran, the canonical form of the Go argument values it received (absent / null / set distinguished through Omittable and map keys), and otherwise the error path; scalar unmarshalers are also driven directly on the class x carrier grid.",
+   note="Trusted: TLC, the canonical renderer of Go values, the concretiser of integer classes. Positions marked soft in the spec (Go int wider than GraphQL Int) accept reject-or-deliver-unchanged."),
+ "C03": dict(level=MC, ref="DESIGN.md §5 C03, notes/C03.md",
+   technique="TLA+ model of N concurrent requests through the executor pipeline with shared query cache and global validator rule set (Pipeline.tla) exhaustively checked by TLC; TLC-enumerated cache-operation interleavings replayed through a gating cache; recorded hook/resolver/cache events of random sessions validated by TLC (PipelineTrace)",
+   text="Pipeline.tla follows CreateOperationContext / DispatchOperation / DispatchError step by step (parameter mutators, cache lookup, parse, rule swap, validate, cache add, operation selection, variable coercion, context mutators, operation / response / root-field / field interceptors, resolver) for 2-3 concurrent requests x extension lists x {no cache, map, LRU 1-2} x suggestions on/off x a request alphabet of 9 classes; invariants I1-I5 (nothing runs for a rejected request, only validated documents are cached, lifecycle word with first-registered outermost and each hook exactly once, errors-only answers, no panic) are checked exhaustively. All TLC-enumerated orders of the cache operations of concurrent requests are forced on the real executor through a gating cache, and sessions of instrumented extensions (all 63 hook-interface subsets) + logging resolvers, sequential and concurrent, are validated by TLC against PipelineTrace; a -race child run is part of the thorough tier.",
+   note="Trusted: TLC, the instrumented extensions, the independent document classifier. The rule-swap window inside gqlparser's RemoveRule/ReplaceRule is reproduced statistically (no hook reaches gqlparser)."),
 }
 NOT_YET = {}
 def main():
